@@ -1050,7 +1050,7 @@ impl ASN1Value {
             | (ASN1Type::Set(_), ASN1Value::ObjectIdentifier(val))
             | (ASN1Type::Sequence(_), ASN1Value::ObjectIdentifier(val)) => {
                 // Object identifier values and sequence-like values cannot be properly distinguished
-                *self = Self::object_identifier_as_struct_value(val)?;
+                *self = Self::object_identifier_as_struct_value(val, ty)?;
                 self.link_with_type(tlds, ty, type_name)
             }
             (ASN1Type::SetOf(_), ASN1Value::LinkedNestedValue { value, .. })
@@ -1060,7 +1060,7 @@ impl ASN1Value {
                 if matches![**value, ASN1Value::ObjectIdentifier(_)] =>
             {
                 if let ASN1Value::ObjectIdentifier(val) = &mut **value {
-                    **value = Self::object_identifier_as_struct_value(val)?;
+                    **value = Self::object_identifier_as_struct_value(val, ty)?;
                 }
                 self.link_with_type(tlds, ty, type_name)
             }
@@ -1467,8 +1467,26 @@ impl ASN1Value {
     /// as a sequence-like value with integer members, e.g. `{ x 1 }`
     fn object_identifier_as_struct_value(
         val: &mut ObjectIdentifierValue,
+        ty: &ASN1Type,
     ) -> Result<ASN1Value, GrammarError> {
         let mut pseudo_arcs = std::mem::take(&mut val.0);
+        // a list with a single element, e.g. `{ 5 }` or `{ five }`
+        if let (ASN1Type::SequenceOf(_) | ASN1Type::SetOf(_), [element]) =
+            (ty, pseudo_arcs.as_mut_slice())
+        {
+            let element = match (element.name.take(), element.number) {
+                (Some(identifier), None) => Some(ASN1Value::ElsewhereDeclaredValue {
+                    module: None,
+                    identifier,
+                    parent: None,
+                }),
+                (None, Some(number)) => number.try_into().ok().map(ASN1Value::Integer),
+                _ => None,
+            };
+            if let Some(element) = element {
+                return Ok(ASN1Value::SequenceOrSet(vec![(None, Box::new(element))]));
+            }
+        }
         let struct_value = pseudo_arcs
             .chunks_mut(2)
             .map(|chunk| {
